@@ -53,6 +53,8 @@ type World struct {
 	firstLead map[[2]uint64]bool
 	crashed  map[uint64]string // id -> image dir
 	crashLogs map[uint64]LogSt
+	armed     map[uint64]bool
+	tripCount int
 	incs     map[uint64]int
 	voters   []uint64
 	walkID   string
@@ -125,6 +127,10 @@ func (w *World) submit(kind string, node uint64, target uint64, voter bool) {
 		fut := n.R.SubmitOperation([]byte(op.Payload), typ, op.Timeout)
 		go func() {
 			res := fut.Await()
+			if n.Rec.Tripped() {
+				finish(errors.New("node died before answering"))
+				return
+			}
 			if res.Error() != nil {
 				finish(res.Error())
 				return
@@ -142,6 +148,10 @@ func (w *World) submit(kind string, node uint64, target uint64, voter bool) {
 		fut := n.R.AddServer(ID(target), Addr(target), voter, op.Timeout)
 		go func() {
 			res := fut.Await()
+			if n.Rec.Tripped() {
+				finish(errors.New("node died before answering"))
+				return
+			}
 			if res.Error() != nil {
 				finish(res.Error())
 				return
@@ -156,6 +166,10 @@ func (w *World) submit(kind string, node uint64, target uint64, voter bool) {
 		fut := n.R.RemoveServer(ID(target), op.Timeout)
 		go func() {
 			res := fut.Await()
+			if n.Rec.Tripped() {
+				finish(errors.New("node died before answering"))
+				return
+			}
 			if res.Error() != nil {
 				finish(res.Error())
 				return
@@ -523,7 +537,7 @@ func runWalk(t *testing.T, rep *Report, prof profile, seed uint64, walk int, act
 		time.Sleep(time.Hour)
 		s := NewSim(root, SimOpts{SnapEvery: prof.snapEvery, PadBytes: pad})
 		w := &World{S: s, rng: rng, rep: rep, prof: prof.name, leaders: map[uint64]map[uint64]bool{}, firstLead: map[[2]uint64]bool{},
-			crashed: map[uint64]string{}, crashLogs: map[uint64]LogSt{}, incs: map[uint64]int{}, maxTermSeen: map[uint64]uint64{},
+			crashed: map[uint64]string{}, crashLogs: map[uint64]LogSt{}, armed: map[uint64]bool{}, incs: map[uint64]int{}, maxTermSeen: map[uint64]uint64{},
 			violated: map[string]bool{}, members: map[uint64]bool{}, bounded: prof.bounded,
 			walkID: fmt.Sprintf("walk profile=%s seed=%d walk=%d nodes=%d actions=%d", prof.name, seed, walk, nn, actions)}
 		var boot []uint64
@@ -669,8 +683,23 @@ func runWalk(t *testing.T, rep *Report, prof profile, seed uint64, walk int, act
 						delete(w.crashed, id)
 						break
 					}
-				} else if ids := s.IDs(); len(ids) > 0 && len(w.crashed) < (nn-1)/2+1 {
+				} else if ids := s.IDs(); len(ids) > 0 && len(w.crashed)+len(w.armed) < (nn-1)/2+1 {
 					id := ids[rng.Intn(len(ids))]
+					if w.armed[id] {
+						break
+					}
+					if rng.Chance(55) {
+						// crash point between two storage writes: fires inside a critical section
+						k, kind := 1+rng.Intn(5), ""
+						if prof.snapEvery > 0 && rng.Chance(50) {
+							// aim at the rare windows: snapshot made visible / log trimmed / truncation
+							k, kind = 1+rng.Intn(2), []string{"lc", "ld", "sc", "lt", "sn", "sw"}[rng.Intn(6)]
+						}
+						w.note("arm crash point at node %d: before its storage operation #%d from now (kind %q)", id, k, kind)
+						w.armed[id] = true
+						s.ArmCrash(id, k, kind)
+						break
+					}
 					w.crashLogs[id] = s.Nodes[id].LogOf()
 					w.note("crash node %d", id)
 					w.crashed[id] = s.Crash(id)
@@ -706,6 +735,7 @@ func runWalk(t *testing.T, rep *Report, prof profile, seed uint64, walk int, act
 				}
 			}
 			w.drain()
+			w.collectTrips()
 			w.observe()
 			w.checkAckDurability(acked)
 			if len(w.violated) > 0 && a > actions/2 {
@@ -715,6 +745,10 @@ func runWalk(t *testing.T, rep *Report, prof profile, seed uint64, walk int, act
 		// ---- quiet period: heal, restart, deliver promptly; the cluster must converge (C15)
 		w.note("--- quiet period ---")
 		s.HealAll()
+		for id := range w.armed {
+			s.Disarm(id)
+		}
+		w.collectTrips()
 		for id, img := range w.crashed {
 			w.incs[id]++
 			if err := w.restart(id, img); err != nil {
@@ -765,6 +799,20 @@ func (w *World) drain() {
 	for i := 0; i < n; i++ {
 		sleepToResidue(500)
 		synctest.Wait()
+	}
+}
+
+// collectTrips: crash points that fired since the last action.
+func (w *World) collectTrips() {
+	for _, id := range w.S.Tripped() {
+		at := w.S.Nodes[id].Rec.TripAt
+		img := w.S.FinishTrip(id)
+		delete(w.armed, id)
+		w.crashed[id] = img
+		w.crashLogs[id] = LogOfDir(img)
+		w.note("node %d died at its armed crash point, just before storage operation %s; image log %s", id, at, w.crashLogs[id].String())
+		w.tripCount++
+		w.rep.Hit("crash-before:" + strings.SplitN(at, "(", 2)[0])
 	}
 }
 
